@@ -813,6 +813,15 @@ def inline_helpers(mod: Module, func: ast.FunctionDef, depth: int = 2, only_priv
     cls = qual.split(".")[0] if "." in qual and qual.split(".")[0] in mod.classes else None
     out = _copy.deepcopy(func)
 
+    local_defs: Dict[str, ast.FunctionDef] = {}
+
+    def _callee(c: ast.Call):
+        r = _callee_of(mod, cls, c, qual)
+        if r is None and isinstance(c.func, ast.Name) and c.func.id in local_defs:
+            # a closure that arrived with the body of an inlined helper
+            return local_defs[c.func.id], 0
+        return r
+
     def simple_returns(d: ast.FunctionDef) -> Optional[bool]:
         rets = [n for n in walk_no_nested(d) if isinstance(n, ast.Return)]
         if any(isinstance(n, (ast.Yield, ast.YieldFrom)) for n in walk_no_nested(d)):
@@ -833,12 +842,12 @@ def inline_helpers(mod: Module, func: ast.FunctionDef, depth: int = 2, only_priv
         return None
 
     def expand(call: ast.Call, kind: str, target) -> Optional[List[ast.stmt]]:
-        res = _callee_of(mod, cls, call, qual)
+        res = _callee(call)
         if res is None:
             return None
         d, skip = res[0], res[1]
         recv = res[2] if len(res) > 2 else None
-        is_closure = mod.qualname_of(d).count(".") >= (2 if cls is not None else 1)
+        is_closure = mod.qualname_of(d).count(".") >= (2 if cls is not None else 1) or any(d is n_ for n_ in local_defs.values())
         if only_private and not d.name.startswith("_") and not is_closure and recv is None:
             return None
         if d is func or d.name == func.name or d.name in exclude:
@@ -937,8 +946,9 @@ def inline_helpers(mod: Module, func: ast.FunctionDef, depth: int = 2, only_priv
         for c in ast.walk(val):
             if c is val or not isinstance(c, ast.Call):
                 continue
-            res_ = _callee_of(mod, cls, c, qual)
-            if res_ is None or res_[0].name in exclude or not (res_[0].name.startswith("_") or "." in mod.qualname_of(res_[0]).replace((cls or "") + ".", "", 1)) or simple_returns(res_[0]) is not True:
+            res_ = _callee(c)
+            if res_ is None or res_[0].name in exclude or not (res_[0].name.startswith("_") or "." in mod.qualname_of(res_[0]).replace((cls or "") + ".", "", 1) or any(res_[0] is n_ for n_ in local_defs.values())) \
+                    or simple_returns(res_[0]) is not True:
                 continue
             _inl_counter[0] += 1
             tmp = f"__hoist{_inl_counter[0]}"
@@ -960,7 +970,7 @@ def inline_helpers(mod: Module, func: ast.FunctionDef, depth: int = 2, only_priv
         Only when the helper is a plain generator (yields as statements, no return value) and BODY has no break / continue of this loop / orelse."""
         if not isinstance(st.iter, ast.Call) or st.orelse:
             return None
-        res = _callee_of(mod, cls, st.iter, qual)
+        res = _callee(st.iter)
         if res is None:
             return None
         d, skip = res[0], res[1]
@@ -1082,6 +1092,9 @@ def inline_helpers(mod: Module, func: ast.FunctionDef, depth: int = 2, only_priv
     def rewrite(stmts: List[ast.stmt], d: int) -> List[ast.stmt]:
         res: List[ast.stmt] = []
         hoisted: List[ast.stmt] = []
+        for st in stmts:
+            if isinstance(st, ast.FunctionDef):
+                local_defs[st.name] = st          # (closures of this statement list, also those that arrived with an inlined body)
         for st in stmts:
             hoisted.extend(hoist(st) if d > 0 else [st])
         for st in hoisted:
